@@ -369,6 +369,7 @@ func (stormErr) Is(error) bool {
 
 func c01LeaderWindow(r *Run, variant int) {
 	cfg := c01Cfg{Kind: "loading", MaxSize: 100, Clients: 4, Keys: 1, Pool: variant%2 == 1 && r.Args["racepass"] == ""}
+	defer r.Case(fmt.Sprintf("leader-window %d pool=%v", variant, cfg.Pool))()
 	api, err := c01Build(cfg, nil)
 	if err != nil {
 		r.Broken("build: %v", err)
